@@ -308,11 +308,117 @@ def probe():
     out['F24-tonnx-sown-tuples'] = {'fails': (y1, y2) != (2.0, 2.0), 'got': [y1, y2]}
   except Exception as e:  # pylint: disable=broad-except
     out['F24-tonnx-sown-tuples'] = {'fails': True, 'err': type(e).__name__, 'msg': str(e)[:160]}
+  out['sow_reduce_histories'] = sow_reduce_histories()
+  out['tolinen_partition_specs'] = tolinen_partition_specs()
   m = bridge.ToNNX(Top(), rngs=nnx.Rngs(0)).lazy_init(jnp.ones(()))
   m(jnp.ones(()), mutable=['batch_stats'])
   paths = sorted('/'.join(map(str, p)) for p, _ in nnx.to_flat_state(nnx.state(m)) if p[0] != 'rngs')
   out['F23-tonnx-nested-mutable-drops-params'] = {'fails': 'mid/inner/w' not in paths, 'paths': paths}
   return out
+
+
+def sow_reduce_histories():
+  """ToNNX around a module that keeps running statistics with sow(reduce_fn=...) (a call counter at the top, a running sum in a
+  sub-module): after every call of a history the wrapper returns and holds what Linen apply on the variables it held returns"""
+  from flax import traverse_util
+
+  def add(a, b):
+    return a + b
+
+  class Block(nn.Module):
+    @nn.compact
+    def __call__(self, x):
+      w = self.param('w', lambda k: jnp.asarray(3, dtype=jnp.int64))
+      h = x * w
+      self.sow('intermediates', 'act_sum', h, init_fn=lambda: jnp.asarray(0, dtype=jnp.int64), reduce_fn=add)
+      return h + 1
+
+  class Net(nn.Module):
+    @nn.compact
+    def __call__(self, x):
+      y = Block(name='blk')(x)
+      self.sow('intermediates', 'calls', jnp.asarray(1, dtype=jnp.int64), init_fn=lambda: jnp.asarray(0, dtype=jnp.int64), reduce_fn=add)
+      c = self.variable('batch_stats', 'n', lambda: jnp.asarray(0, dtype=jnp.int64))
+      if not self.is_initializing() and self.is_mutable_collection('batch_stats'):
+        c.value = c.value + 1
+      return y + c.value
+
+  def held(model):
+    flat = {}
+    for path, vs in nnx.to_flat_state(nnx.state(model)):
+      if issubclass(vs.type, nnx.RngState):
+        continue
+      flat[(nnx.variable_name_from_type(vs.type), *path)] = vs.value
+    return traverse_util.unflatten_dict(flat)
+
+  def enc(t):
+    return sorted(('/'.join(map(str, k)), int(v)) for k, v in traverse_util.flatten_dict(t).items())
+  bad = []
+  lm = Net()
+  schedules = [[['intermediates'], ['intermediates'], None, ['intermediates']],
+               [['intermediates', 'batch_stats'], ['batch_stats'], ['intermediates'], ['intermediates', 'batch_stats']],
+               [None, ['intermediates'], ['intermediates'], ['intermediates']]]
+  for sched in schedules:
+    try:
+      model = bridge.ToNNX(lm, rngs=nnx.Rngs(0)).lazy_init(jnp.asarray(1, dtype=jnp.int64))
+      for step, mut in enumerate(sched):
+        x = jnp.asarray(step + 2, dtype=jnp.int64)
+        before = held(model)
+        if mut:
+          y_ref, upd = lm.apply(before, x, mutable=mut)
+          expected = {**before, **flax.core.unfreeze(upd)}
+          y = model(x, mutable=mut)
+        else:
+          y_ref, expected = lm.apply(before, x), before
+          y = model(x)
+        after = held(model)
+        if int(y) != int(y_ref) or enc(after) != enc(expected):
+          bad.append({'schedule': sched, 'step': step, 'y': int(y), 'y_linen': int(y_ref), 'wrapper_state': enc(after), 'linen_apply_on_held_variables': enc(expected)})
+          break
+    except Exception as e:  # pylint: disable=broad-except
+      bad.append({'schedule': sched, 'exc': type(e).__name__, 'msg': str(e)[:200]})
+  return bad
+
+
+def tolinen_partition_specs():
+  """the Linen-side partition specs of a ToLinen module equal those of the NNX module it wraps, with per-variable sharding_rules,
+  inside an nn.logical_axis_rules context and after nn.set_logical_axis_rules"""
+  P = jax.sharding.PartitionSpec
+
+  class Net(nnx.Module):
+    def __init__(self, *, rngs):
+      init = nnx.initializers.ones_init()
+      self.w1 = nnx.Param(nnx.with_partitioning(init, ('embed', 'mlp'))(rngs.params(), (4, 6)))
+      self.w2 = nnx.Param(nnx.with_partitioning(init, ('mlp', 'vocab'), sharding_rules=(('vocab', 'model'),))(rngs.params(), (6, 3)))
+      self.w3 = nnx.Param(nnx.with_partitioning(init, ('data', None))(rngs.params(), (3, 3)))
+      self.b = nnx.Param(jnp.zeros((3,)))
+
+    def __call__(self, x):
+      return x @ self.w1 @ self.w2 @ self.w3 + self.b
+  bad = []
+  try:
+    x = jnp.ones((2, 4))
+    lm = bridge.to_linen(Net)
+    variables = lm.init(jax.random.key(0), x)
+    nm = Net(rngs=nnx.Rngs(params=0))
+
+    def compare(tag, absolute=None):
+      ls = nn.get_partition_spec(variables)['params']
+      ns = nnx.get_partition_spec(nnx.state(nm, nnx.Param))
+      for name in ('w1', 'w2', 'w3', 'b'):
+        if ls[name] != ns[name].value or (absolute is not None and ls[name] != absolute[name]):
+          bad.append({'context': tag, 'variable': name, 'tolinen_spec': str(ls[name]), 'nnx_spec': str(ns[name].value), 'expected': str(absolute[name]) if absolute else None})
+    compare('no rules', {'w1': P('embed', 'mlp'), 'w2': P('mlp', 'model'), 'w3': P('data', None), 'b': P()})
+    with nn.logical_axis_rules((('embed', 'data'), ('mlp', 'model'))):
+      compare('nn.logical_axis_rules context', {'w1': P('data', 'model'), 'w2': P('model', 'model'), 'w3': P('data', None), 'b': P()})
+    compare('after the context')
+    md = variables['params']['w2'].metadata
+    if md.get('sharding') != ('mlp', 'vocab') or md.get('sharding_rules') != (('vocab', 'model'),):
+      bad.append({'metadata_of_w2': str(md)})
+  except Exception as e:  # pylint: disable=broad-except
+    import traceback
+    bad.append({'exc': type(e).__name__, 'msg': str(e)[:200], 'tb': traceback.format_exc()[-500:]})
+  return bad
 
 
 def registry_case(c, uid):
